@@ -1,19 +1,80 @@
 // C02: parse_pdf_obj on a spelling (+context) with a fresh context of the given depth bound.
+//
+// case:  <tag> <maxdepth> <bufhex> [<expectation, ignored here>]
+// output: ok <start> <end> <cursor> <S-expression>   |   err <kind>
+//
+// view variant:  vw <steps> <prehex> <sufhex> <case as above>
+//   the bytes <prehex> ++ <bufhex> ++ <sufhex> are ONE allocation; <steps> (comma-separated, applied in
+//   order, each to the result of the previous one) restrict it to a view:
+//     R<start>:<size>  RestrictView::new(start, size)      F<start>  RestrictViewFrom::new(start)
+//   the case then runs on the resulting view exactly as on a plain buffer: start, end and cursor are
+//   cursors of the view.  The steps are meant to select the window <bufhex>; the harness checks that
+//   the view it obtained shows exactly those bytes (`view-mismatch` otherwise; `view-error` if a step
+//   is refused).
 use parsley_rust::pcore::parsebuffer::{ParseBuffer, ParseBufferT};
+use parsley_rust::pcore::transforms::{BufferTransformT, RestrictView, RestrictViewFrom};
 use parsley_rust::pdf_lib::pdf_obj::{parse_pdf_obj, PDFObjContext};
 use verif_harness::objfmt::obj_sexp;
 use verif_harness::*;
 
+// the view selected by <steps> in pre ++ window ++ suf
+fn view_of(steps: &str, pre: &[u8], window: &[u8], suf: &[u8]) -> Result<ParseBuffer, &'static str> {
+    let mut all = pre.to_vec();
+    all.extend_from_slice(window);
+    all.extend_from_slice(suf);
+    let mut pb = ParseBuffer::new(all);
+    for st in steps.split(',') {
+        let r = if let Some(t) = st.strip_prefix('R') {
+            let p: Vec<&str> = t.split(':').collect();
+            if p.len() != 2 {
+                return Err("bad-case")
+            }
+            match (p[0].parse::<usize>(), p[1].parse::<usize>()) {
+                (Ok(a), Ok(b)) => RestrictView::new(a, b).transform(&pb),
+                _ => return Err("bad-case"),
+            }
+        } else if let Some(t) = st.strip_prefix('F') {
+            match t.parse::<usize>() {
+                Ok(a) => RestrictViewFrom::new(a).transform(&pb),
+                _ => return Err("bad-case"),
+            }
+        } else {
+            return Err("bad-case")
+        };
+        pb = match r {
+            Ok(v) => v,
+            Err(_) => return Err("view-error"),
+        };
+    }
+    if pb.get_cursor() != 0 || pb.size() != window.len() || pb.remaining() != window.len() || pb.buf() != window {
+        return Err("view-mismatch")
+    }
+    Ok(pb)
+}
+
 fn run(line: &str) -> String {
     let w: Vec<&str> = line.split_whitespace().collect();
+    if !w.is_empty() && w[0] == "vw" {
+        if w.len() < 7 {
+            return "bad-case".to_string()
+        }
+        return match view_of(w[1], &unhex(w[2]), &unhex(w[6]), &unhex(w[3])) {
+            Ok(pb) => run_on(&w[4 ..], pb),
+            Err(e) => e.to_string(),
+        }
+    }
     if w.len() < 3 {
         return "bad-case".to_string()
     }
+    let pb = ParseBuffer::new(unhex(w[2]));
+    run_on(&w, pb)
+}
+
+fn run_on(w: &[&str], mut pb: ParseBuffer) -> String {
     let d: usize = match w[1].parse() {
         Ok(d) => d,
         Err(_) => return "bad-case".to_string(),
     };
-    let mut pb = ParseBuffer::new(unhex(w[2]));
     let mut ctxt = PDFObjContext::new(d);
     match parse_pdf_obj(&mut ctxt, &mut pb) {
         Ok(v) => format!("ok {} {} {} {}", v.start(), v.end(), pb.get_cursor(), obj_sexp(v.val())),
